@@ -280,6 +280,27 @@ func (e *Engine) symNative(name string, args []value) value {
 			f = tt.Or(in('\t', '\r'), tt.Eq(r.t, tt.BVConst(w, ' ')))
 		}
 		return e.fromTerm(f, types.Bool)
+	case "strings.Repeat":
+		if n, ok := args[1].(int); ok {
+			if n < 0 {
+				panic(targetPanic{iface{types.Typ[types.String], "strings: negative Repeat count"}})
+			}
+			b := strBytes(args[0])
+			if int64(len(b)*n) > e.MaxAlloc {
+				panic(pathAbort{"resource", "strings.Repeat beyond allocation bound"})
+			}
+			var out []value
+			for i := 0; i < n; i++ {
+				out = append(out, b...)
+			}
+			return normStr(out)
+		}
+	case "strings.HasPrefix":
+		s, p := strBytes(args[0]), strBytes(args[1])
+		if len(p) > len(s) {
+			return false
+		}
+		return symStrEq(e, symstr{s[:len(p)]}, symstr{p})
 	case "math.Abs":
 		x := args[0].(sv)
 		neg := tt.FPCmp("fp.lt", x.t, tt.F64Const(0))
